@@ -21,3 +21,14 @@
 ./tools_mut.py C18 fake_ble.py 'return bytearray([len(buf) + 1, data_type & 0xFF]) + buf' 'return bytearray([len(buf), data_type & 0xFF]) + buf'
 ./tools_mut.py C18 fake_ble.py 'deg_poly: int = 0x65B' 'deg_poly: int = 0x65D'
 ./tools_mut.py C18 fake_ble.py '            self._mac += urandom(6 - len(self._mac))' '            self._mac += urandom(5 - len(self._mac))'
+./tools_mut.py C18 fake_ble.py '        payload = b""
+        if isinstance(buf, (list, tuple)):
+            for byte in buf:' '        if isinstance(buf, (list, tuple)):
+            payload = buf[0] if buf else b""
+            for byte in buf[1:]:'
+./tools_mut.py C18 fake_ble.py '        payload = b""
+        if isinstance(buf, (list, tuple)):
+            for byte in buf:
+                payload += byte' '        payload = b""
+        if isinstance(buf, (list, tuple)):
+            payload = b"".join(buf)'
